@@ -891,6 +891,13 @@ def units(tier, seed):
     unit("sizes, 1 binary", shapes=("1 core", "empty"), bufs=(16, 32),
          sizes=tuple((s,) for s in ALL_SIZES), tries=(0, 1),
          nn_starts=(0, 126), witnesses=W + ("two-argument form",))
+    # ... and against the buffer sizes real machines report (256 bytes) and
+    # larger ones: the block count announced and the blocks sent both follow
+    # the machine's buffer size, whatever it is
+    unit("sizes, 1 binary, buffers of 256 bytes and more",
+         shapes=("1 core",), bufs=(256, 320, 512),
+         sizes=tuple((s,) for s in ALL_SIZES), tries=(1,), reliable=True,
+         split=4, witnesses=("returned",))
     unit("sizes, 2 binaries", shapes=("2 binaries same chip",),
          bufs=(16,) if q else (16, 32),
          sizes=(("-4", "+4"), ("0", "x2"), ("x2", "-4"), ("+4", "0")) if q
